@@ -204,7 +204,13 @@ func (d *DiachronicFlow) Aggregate(startGte, startLt int64) *types.Flow {
 	if !d.Within(startGte, startLt) {
 		return nil
 	}
-	return d.AggregateWindows(d.GetWindows(startGte, startLt))
+	windows := d.GetWindows(startGte, startLt)
+	if len(windows) == 0 {
+		// A window starts inside the range but ends after it (the range ends part-way through a bucket):
+		// there is no data wholly inside the range, so there is no flow to report.
+		return nil
+	}
+	return d.AggregateWindows(windows)
 }
 
 // GetWindows returns a slice of Windows that fall within the specified time range.
